@@ -1174,3 +1174,20 @@ m('P1-prefix-errors-reorders-only-larger-dicts', 'C07', 'P1', 'prefix_errors/dic
   """            full_tree_children = [full_subtree[k] for k in prefix_tree_keys]  # type: ignore[misc]""",
   """            if len(prefix_tree_keys) > 2:
                 full_tree_children = [full_subtree[k] for k in prefix_tree_keys]  # type: ignore[misc]""")
+m('M5b-transform-keeps-only-its-own-namespace', 'C08', 'M5b', 'PyTreeSpec::Transform/namespace-of-every-treespec-met', 'src/treespec/treespec.cpp',
+  """    treespec->m_namespace = common_registry_namespace;
+    treespec->m_traversal.shrink_to_fit();""",
+  """    treespec->m_namespace = m_namespace;
+    treespec->m_traversal.shrink_to_fit();""")
+m('S1-loader-normalises-the-flag', 'C11', 'S1', 'FromPickleable/flags-only-from-state', 'src/treespec/serialization.cpp',
+  """    out->m_traversal.shrink_to_fit();
+    PYTREESPEC_SANITY_CHECK(*out);
+    return out;
+}""",
+  """    if (out->m_traversal.size() == 1) [[unlikely]] {
+        out->m_none_is_leaf = false;
+    }
+    out->m_traversal.shrink_to_fit();
+    PYTREESPEC_SANITY_CHECK(*out);
+    return out;
+}""")
